@@ -23,6 +23,7 @@ type entry struct {
 	Has      bool     `json:"has"`
 	Ver      int      `json:"version"`
 	At       int64    `json:"fetched_at"`                    // virtual second at which the upstream produced the answer
+	AtMax    int64    `json:"received_by,omitempty"`         // virtual second at which the call that fetched it returned, when the clock stepped during that call (else 0)
 	TTLs     []uint32 `json:"ttls"`                          // TTLs of ALL records of that response, in answer order (CNAMEs, the RRSet, unrelated extras)
 	Own      []uint32 `json:"rrset_ttls,omitempty"`          // of the records the lookup returns (the RRSet at the end of the CNAME chain)
 	CN       []uint32 `json:"cname_ttls,omitempty"`          // of the CNAME records of the chain
@@ -253,6 +254,7 @@ type seqHist struct {
 	// for all three (nil until then); orderUnstable: a later call contradicted it, nothing is inferred from it any more
 	lookupOrder   []int
 	orderUnstable bool
+	resolves      int
 }
 
 func (h *seqHist) payload() map[string]any {
@@ -543,6 +545,22 @@ const (
 
 // decide: what the statement demands for a lookup of an entry at virtual second now.
 func (h *seqHist) decide(en *entry, now int64) (class, reason string) {
+	class, reason = h.decideAt(en, now)
+	// An answer fetched during a call in which the clock stepped was RECEIVED somewhere between the moment the upstream
+	// produced it (At) and the moment the call returned (AtMax): a resolver counts the TTL from receipt, and one that
+	// looks several types up at the same time may process an answer produced before the step after it. Where the two
+	// ends of that interval give different demands, either behaviour is accepted.
+	if en.Has && en.AtMax > en.At {
+		late := *en
+		late.At = en.AtMax
+		if c2, _ := h.decideAt(&late, now); c2 != class {
+			return lenient, "received-before-or-after-the-clock-step"
+		}
+	}
+	return class, reason
+}
+
+func (h *seqHist) decideAt(en *entry, now int64) (class, reason string) {
 	switch {
 	case h.size == 0:
 		return mustFetch, "cache-disabled"
@@ -668,6 +686,14 @@ func rcodeClass(rc int) string {
 func (h *seqHist) resolve(op *seqOp) (stop bool) {
 	r, srv := h.e.r, h.srv
 	srv.ResetLog()
+	// The first call of a history asks upstream for everything. Its answers are held back for a few milliseconds
+	// (injected delay, never a verdict): an implementation that sends several of its queries at the same time then
+	// shows them in flight together, and the model stops inferring anything from a lookup ORDER (orderUnstable).
+	if h.resolves == 0 {
+		srv.SetDelay(3 * time.Millisecond)
+		defer srv.SetDelay(0)
+	}
+	h.resolves++
 	var arrivals atomic.Int64
 	if op.JumpAt > 0 {
 		step := time.Duration(op.D) * time.Second
@@ -754,6 +780,12 @@ func (h *seqHist) resolve(op *seqOp) (stop bool) {
 	var want [3]int // version each key must show; verBad = unknown
 	var expect []string
 	expectErr, afterFail, sent, allCached, failedBy, failedRc := false, false, 0, true, "", 0
+	for _, q := range srv.Log() {
+		if q.Overlap > 0 && !h.orderUnstable {
+			h.orderUnstable = true // queries in flight at the same time: there is no lookup order to speak of
+			h.counts["seq_histories_with_overlapping_upstream_queries"]++
+		}
+	}
 	// learn / confirm the lookup order from what was asked upstream in this call
 	var asked []int
 	for _, k := range order {
@@ -929,7 +961,11 @@ func (h *seqHist) resolve(op *seqOp) (stop bool) {
 			h.counts["seq_refetched_after_rcode_failure"]++
 		}
 		all, own, cn, ex, neg, end := zone.response(op.Name, k)
-		*en = entry{Has: true, Ver: h.ver, At: now, TTLs: all, Own: own, CN: cn, Ex: ex, Neg: neg, End: end, Empty: len(own) == 0, Certain: h.size >= 16,
+		atMax := int64(0)
+		if jumped && now1 > now {
+			atMax = now1
+		}
+		*en = entry{Has: true, Ver: h.ver, At: now, AtMax: atMax, TTLs: all, Own: own, CN: cn, Ex: ex, Neg: neg, End: end, Empty: len(own) == 0, Certain: h.size >= 16,
 			Jumped: jumped && pos[k] >= op.JumpAt}
 		want[k] = h.ver
 		if en.Empty {
